@@ -1,6 +1,7 @@
 import Model
 import Proofs.SchedInv
 import Proofs.WFCheck
+import Proofs.Counted
 /-!
 C05 — daily and weekly limits are never exceeded.
 
@@ -72,6 +73,73 @@ theorem week_shift (c : CalEnv) (i : Int) (k : Int) (hG : 0 < c.G) (hdiv : (6048
     omega
   rw [e1]
   omega
+
+/-! ### booked time, not only counters -/
+
+/-- which limits count a booking of resource `r` by task `t`: the unfiltered limits of `r` and of every enclosing resource
+    group, and the limits of `t` and of every enclosing task that carry no resource filter or name `r` -/
+theorem covers_iff (e : Env) (lid r t : Nat) :
+    covers e lid r t ↔
+      (lid ∈ resLimitIds e r ∧ (e.limitD lid).res = none) ∨
+      (lid ∈ taskLimitIds e t ∧ ((e.limitD lid).res = none ∨ (e.limitD lid).res = some r)) := by
+  unfold covers bookPairs applies
+  constructor
+  · rintro ⟨q, hq, rfl, ha⟩
+    simp only [List.mem_append, List.mem_map] at hq
+    rcases hq with ⟨l, hl, rfl⟩ | ⟨l, hl, rfl⟩
+    · left
+      refine ⟨hl, ?_⟩
+      cases hr : (e.limitD l).res with
+      | none => rfl
+      | some x => simp [hr] at ha
+    · right
+      refine ⟨hl, ?_⟩
+      cases hr : (e.limitD l).res with
+      | none => exact Or.inl rfl
+      | some x =>
+        right
+        simp only [hr, Option.isSome_some, Bool.true_and, Bool.not_eq_true', bne_eq_false_iff_eq] at ha
+        exact ha
+  · rintro (⟨hl, hr⟩ | ⟨hl, hr⟩)
+    · exact ⟨(lid, none), by simp only [List.mem_append, List.mem_map]; exact Or.inl ⟨lid, hl, rfl⟩, rfl, by simp [hr]⟩
+    · refine ⟨(lid, some r), by simp only [List.mem_append, List.mem_map]; exact Or.inr ⟨lid, hl, rfl⟩, rfl, ?_⟩
+      rcases hr with hr | hr <;> simp [hr]
+
+/-- **C05 at the level of the ledger** (`Proofs/Counted`, by the induction principle `runScenario_closed` over every state
+    the scheduler reaches): after scheduling ANY well-formed project, for every limit and every one of its periods (calendar
+    day or Monday-based week), the ledger entries (resource, slot, task) that the limit covers in that period — however
+    they are listed, without repetition — number at most `value` slots … -/
+theorem booked_entries_le_limit (e : Env) (wf : WF e) (lid : Nat) (p : Int) (L : List Trip) (hp : 0 ≤ p)
+    (hv : Valid e (runScenario e) lid p L) : (L.length : Int) ≤ max 0 (e.limitD lid).value :=
+  runScenario_entries_le_limit e wf lid p L hp hv
+
+/-- … and the seconds they record add up to at most `value x G`: the booked working time of a limited resource, of all
+    members of a limited group together, or of all tasks below a limited task, in any day / week of the whole horizon,
+    never exceeds the limit -/
+theorem booked_seconds_le_limit (e : Env) (wf : WF e) (lid : Nat) (p : Int) (L : List Trip) (hp : 0 ≤ p)
+    (hv : Valid e (runScenario e) lid p L) :
+    sumTrips (runScenario e) L ≤ (max 0 (e.limitD lid).value : Int) * (e.G : Rat) :=
+  runScenario_secs_le_limit e wf lid p L hp hv
+
+/-- the same for the environment elaborated from a project description, under the decidable check -/
+theorem booked_seconds_le_limit_elab (p : RawProj) (h : wfCheck (elaborate p).env = true) (lid : Nat) (k : Int)
+    (L : List Trip) (hk : 0 ≤ k) (hv : Valid (elaborate p).env (runScenario (elaborate p).env) lid k L) :
+    sumTrips (runScenario (elaborate p).env) L
+      ≤ (max 0 ((elaborate p).env.limitD lid).value : Int) * ((elaborate p).env.G : Rat) :=
+  booked_seconds_le_limit _ (wfCheck_sound _ h) lid k L hk hv
+
+/-- every counter is at least the number of covered entries, in every reachable final state: no booking goes uncounted -/
+theorem no_booking_uncounted (e : Env) (wf : WF e) : Counted e (runScenario e) := runScenario_counted e wf
+
+/-- non-vacuity: one resource with `dailymax 2h`, one task of 5 h — the limit covers the task's bookings -/
+def lim2 : RawProj :=
+  { G := 3600, start := 1736121600, stop := 1737331200,
+    res := [{ limits := [{ weekly := false, value := 2 }] }],
+    tasks := [{ effort := some 5, alloc := some ([0], []) }] }
+
+example : wfCheck (elaborate lim2).env = true := by decide +kernel
+example : covers (elaborate lim2).env 0 0 0 :=
+  (covers_iff _ 0 0 0).mpr (Or.inl ⟨by decide +kernel, by decide +kernel⟩)
 
 example : weekIdxAt { start := 1798416000, G := 3600, size := 1000, gvac := [], gleaves := [] } 168 = 1 := by decide
 
